@@ -29,8 +29,9 @@ CLAIM = dict(
 
 FIRST = ["r0", "r1", "r2", "r3", "r4", "r5", "users", "all", "pages", "x.y", "é", "a b"]
 STR_VALUES = ["a", "abc", "a b", "é", "ü ö", "a;b", "a?b", "a#b", "50%", "%41", "a&b=c", "x+y", "日本", "😀", "@:!$'()*,", "a\\b", "<x>", "{y}", "~._-",
-              "\t", "a\nb", "ab", "xyz"]
-PATH_VALUES = ["a", "a/b", "x/y/z", "a b/c", "é/ü", "a;b/c?d", "50%/%41", "a//b", "a/b c/😀", "x#y/z", "a\nb/c"]
+              "\t", "a\nb", "ab", "xyz", "k;v", "matrix;a=1;b=2", "(x)*'!$@+", "a:b", "a,b", ";x", "x;"]
+PATH_VALUES = ["a", "a/b", "x/y/z", "a b/c", "é/ü", "a;b/c?d", "50%/%41", "a//b", "a/b c/😀", "x#y/z", "a\nb/c", "a/b;c", "a/b;v=1/c;d",
+               "d1/d2/f;p=1", "a/b:c,d=e"]
 
 
 def gen_value_for(rng, c: Conv):
@@ -216,6 +217,24 @@ def deliver(ad: Adapter, ms: MapSpec, url: str):
     return nxt, unquote(sp.path[len(prefix):]), sp.query
 
 
+def deliver_environ(m, by_obj, ad: Adapter, url: str) -> str:
+    """route the built URL as a WSGI application would: create_environ(target, base_url) then bind_to_environ(environ).match()"""
+    from werkzeug.test import create_environ
+    sp = urlsplit(url)
+    host = sp.netloc or ((ad.subdomain + "." if ad.subdomain else "") + ad.server)
+    script = (ad.script if ad.script.endswith("/") else ad.script + "/").rstrip("/")
+    target = url[url.index(sp.path, (len(sp.scheme) + 3 + len(sp.netloc)) if sp.netloc else 0):] if sp.netloc else url
+    if not target.startswith(script + "/"):
+        return "OFFROOT"
+    rel = target[len(script):]
+    try:
+        env = create_environ(rel, base_url=f"{ad.scheme}://{host}{script}/")
+        a = m.bind_to_environ(env, server_name=ad.server)
+    except Exception as e:  # noqa: BLE001
+        return "EXN " + type(e).__name__
+    return c03.observe(a, by_obj, None, "GET")
+
+
 def values_equal(a: dict, b: dict) -> bool:
     if a.keys() != b.keys():
         return False
@@ -399,6 +418,15 @@ def run(chk: Check) -> None:
             if int(ep) != r.endpoint or args != canon_args(want_vals):
                 chk.fail("build-then-match", f"build -> {url!r}; match gives e{ep} {args}, expected e{r.endpoint} {canon_args(want_vals)}", info)
                 continue
+            # the same URL delivered the way a server delivers it: a WSGI environ (werkzeug.test.create_environ, as the
+            # test client does) routed with Map.bind_to_environ, PATH_INFO percent-decoded by the environ builder
+            if "\n" not in url:
+                eobs = deliver_environ(m, by_obj, ad, url)
+                chk.count("deliver:environ")
+                if eobs != mobs:
+                    chk.fail("build-then-match-environ",
+                             f"build -> {url!r}; delivered through create_environ + bind_to_environ it answers "
+                             f"{eobs if not eobs.startswith('R ') else 'R ' + uncps(eobs[2:])}, delivered percent-decoded it answers {mobs}", info)
             # conversely: the URL built from the result of the match is the URL that was matched
             try:
                 rule2, vals2 = nxt.bind(m).match(path_info, "GET", return_rule=True)
